@@ -1,6 +1,312 @@
-import PhononModel.Model.NAC
-import PhononModel.Lemmas.Basic
+import PhononModel.Lemmas.NAC
+import Mathlib.Tactic.FinCases
+import Mathlib.Tactic.NormNum
+/-!
+# C08 — the non-analytical term correction has the right limits
+
+Theorems are about `PhononModel/Model/NAC.lean` (Wang's method and the reciprocal part of the
+Gonze–Lee method, symmetrisation of Born charges), over every ordered field (ℚ — the driver's
+scalars — and ℝ), for all force constants, masses, Born charges, dielectric tensors, directions,
+factors.  `exp(−K·ε·K/4Λ²)` and the phase factors are parameters.  The commensurate statements use
+the structural description of the phases of C06 (`Lat.wf` certificate, evaluated by `./check C06`
+on the implementation's tables).
+-/
+set_option linter.unusedSectionVars false
 namespace PhononModel.C08
-theorem placeholder : (1 : Nat) = 1 := rfl
+open PhononModel PhononModel.C06 Finset
+
+variable {K : Type} [Field K] [LinearOrder K] [IsStrictOrderedRing K]
+variable {np ns nr : Nat}
+
+/-! ## zero Born charges -/
+
+/-- (1a) Wang: `Z = 0` ⇒ the corrected matrix is the uncorrected one, at every q, with or
+without direction. -/
+theorem zero_born_noop (T : FTables np ns nr) (fc : Fin nr → Fin ns → Fin 3 → Fin 3 → K)
+    (ms : Fin np → Fin np → K) (ph : Phases np ns K) (f : K) (qc : V3 K) (dir : Option (V3 K))
+    (tolSq : K) (eps : T3 K) :
+    wangDynmat T fc ms ph f qc dir tolSq eps (fun _ _ _ => 0) = dynmat T fc ms ph := by
+  unfold wangDynmat
+  split
+  · rfl
+  · simp only [wangChargeSum, chargeSum_zero_born, dynmatRawCS_zero, dynmat]
+
+/-- (1b) Gonze–Lee: `Z = 0` ⇒ `dd_q0 = 0` and the reciprocal dipole–dipole term vanishes: the
+matrix is the one of the short-range force constants (which by C06 `roundtrip_fc` are the input
+force constants, nothing having been subtracted). -/
+theorem zero_born_noop_gl {nG : Nat} (T : FTables np ns nr) (fcSR : Fin nr → Fin ns → Fin 3 → Fin 3 → K)
+    (ms : Fin np → Fin np → K) (ph : Phases np ns K) (G : Fin nG → V3 K) (qc : V3 K) (dir : Option (V3 K))
+    (eps : T3 K) (tolSq : K) (expv : Fin nG → K) (phG : Fin nG → Fin np → Fin np → Cx K) (factor : K) :
+    (ddQ0 G eps (fun (_ : Fin np) _ _ => (0 : K)) tolSq expv phG = fun _ _ _ => ⟨0, 0⟩) ∧
+    glDynmat T fcSR ms ph G qc dir eps (fun _ _ _ => 0) tolSq expv phG
+        (ddQ0 G eps (fun _ _ _ => 0) tolSq expv phG) factor = dynmat T fcSR ms ph := by
+  have h0 : ddQ0 G eps (fun (_ : Fin np) _ _ => (0 : K)) tolSq expv phG = fun _ _ _ => ⟨0, 0⟩ := by
+    funext i a b
+    simp [ddQ0, ddQ0Of, multiplyBorns_zero_born, sumFin_eq]
+  refine ⟨h0, ?_⟩
+  rw [h0]
+  funext i a j b
+  simp only [glDynmat, addDD, recipDD, recipDDOf, multiplyBorns_zero_born]
+  split <;> simp
+
+/-! ## Wang's method -/
+
+/-- (2) the direction enters only through its direction: `n ↦ c·n`, `c ≠ 0`, changes nothing. -/
+theorem wang_direction_scale_invariant (T : FTables np ns nr) (fc : Fin nr → Fin ns → Fin 3 → Fin 3 → K)
+    (ms : Fin np → Fin np → K) (ph : Phases np ns K) (f : K) (qc n : V3 K) (c : K) (hc : c ≠ 0)
+    (tolSq : K) (eps : T3 K) (born : Fin np → T3 K) :
+    wangDynmat T fc ms ph f qc (some fun i => c * n i) tolSq eps born =
+      wangDynmat T fc ms ph f qc (some n) tolSq eps born := by
+  unfold wangDynmat nacVector
+  by_cases hq : normSq qc < tolSq
+  · simp only [if_pos hq, wangChargeSum_smul f (ns / np) c hc]
+  · simp only [if_neg hq]
+
+/-- (3) **Γ-limit, closed form**: at the zone centre (all phase factors 1, `n = ns/np` atoms per
+sublattice) approached along `n` the matrix is the uncorrected one plus
+`f (n·Z_j)_a (n·Z_j')_b / (n·ε·n) / sqrt(m_j m_j')` (`f = 4π/V · unit factor`). -/
+theorem wang_gamma_limit (T : FTables np ns nr) (fc : Fin nr → Fin ns → Fin 3 → Fin 3 → K)
+    (ms : Fin np → Fin np → K) (ph : Phases np ns K) (f : K) (qc n : V3 K) (tolSq : K) (eps : T3 K)
+    (born : Fin np → T3 K) (hq : normSq qc < tolSq)
+    (hph : ∀ k i, avgDivEach (ph k i) = ⟨1, 0⟩)
+    (hcount : ∀ j, (Finset.univ.filter fun k => T.s2p k = (T.p2s j).1).card = ns / np)
+    (hn : 0 < ns / np) (hd : dielectricPart n eps ≠ 0) (hms : ∀ i j, ms i j ≠ 0)
+    (hsym : ∀ i j, ms j i = ms i j) :
+    wangDynmat T fc ms ph f qc (some n) tolSq eps born =
+      fun i a j b => ⟨(dynmat T fc ms ph i a j b).re
+                        + f * qBorn n born i a * qBorn n born j b / dielectricPart n eps / ms i j,
+                      (dynmat T fc ms ph i a j b).im⟩ := by
+  have hn' : ((ns / np : ℕ) : K) ≠ 0 := Nat.cast_ne_zero.mpr (Nat.pos_iff_ne_zero.mp hn)
+  unfold wangDynmat nacVector
+  rw [if_pos hq]
+  simp only []
+  have e : dynmatRawCS T fc ms ph (wangChargeSum f (ns / np) n eps born) =
+      fun i a j b => ⟨(dynmatRaw T fc ms ph i a j b).re
+                        + f * qBorn n born i a * qBorn n born j b / dielectricPart n eps / ms i j,
+                      (dynmatRaw T fc ms ph i a j b).im⟩ := by
+    funext i a j b
+    rw [dynmatRawCS_eq]
+    have h1 : (phaseSum T ph i j).re = ((ns / np : ℕ) : K) := by
+      simp only [phaseSum, hph, Finset.sum_boole, hcount]
+    have h2 : (phaseSum T ph i j).im = 0 := by
+      simp [phaseSum, hph]
+    rw [h1, h2]
+    have := hms i j
+    congr 1
+    · simp only [wangChargeSum, chargeSum]; field_simp
+    · simp
+  rw [e, hermitize_add_real_sym _ (fun i a j b => f * qBorn n born i a * qBorn n born j b / dielectricPart n eps / ms i j)]
+  · rfl
+  · intro i a j b; rw [hsym]; ring
+
+/-- (4) **no-op at commensurate points**: at a q commensurate with the supercell that is not a
+reciprocal lattice point the phases of every sublattice sum to zero (character orthogonality over
+the lattice points of the supercell), so the constant added to every block contributes exactly
+nothing — for every Born charge, dielectric tensor, factor and direction. -/
+theorem wang_commensurate_noop {N : Nat} (L : Lat np ns N) (hwf : L.wf = true) (Z : Zeta K L.Nd)
+    (ψ : Fin N → Fin np → Fin np → Cx K) (mult : Fin ns → Fin np → Nat) (hm : ∀ k i, 0 < mult k i)
+    (q q0 : Fin N) (hq0 : P3.Dvd L.Nd (L.kq q0)) (hq : q ≠ q0)
+    (Φ : CFC np ns K) (ms : Fin np → Fin np → K) (f : K) (qc : V3 K) (dir : Option (V3 K)) (tolSq : K)
+    (eps : T3 K) (born : Fin np → T3 K) :
+    wangDynmat (cT L) Φ ms (phF L Z ψ mult q) f qc dir tolSq eps born = dynmat (cT L) Φ ms (phF L Z ψ mult q) := by
+  unfold wangDynmat
+  split
+  · rfl
+  · unfold dynmat
+    congr 1
+    funext i a j b
+    rw [dynmatRawCS_eq, phaseSum_commensurate (L.wf_sound hwf) Z ψ mult hm q q0 hq0 hq]
+    simp
+
+/-! ## Gonze–Lee, reciprocal part -/
+
+/-- (5) **Γ-limit**: at `q = 0` the only term of the reciprocal sum that depends on the direction
+is `G = 0`; with direction `d` it adds `factor · (d·Z_i)_a (d·Z_j)_b / (d·ε·d)` — the same closed
+form as Wang's (before the division by `sqrt(m_i m_j)` done by `addDD`). -/
+theorem gl_gamma_limit {nG : Nat} (G : Fin nG → V3 K) (d : V3 K) (eps : T3 K) (born : Fin np → T3 K)
+    (tolSq : K) (expv : Fin nG → K) (phG : Fin nG → Fin np → Fin np → Cx K)
+    (ddq0 : Fin np → Fin 3 → Fin 3 → Cx K) (factor : K) (g0 : Fin nG)
+    (hg0 : normSq (fun i => G g0 i + 0) < tolSq) (hother : ∀ g, g ≠ g0 → ¬ normSq (fun i => G g i + 0) < tolSq)
+    (hph : ∀ i j, phG g0 i j = ⟨1, 0⟩) (i : Fin np) (a : Fin 3) (j : Fin np) (b : Fin 3) :
+    recipDD G (fun _ => 0) (some d) eps born tolSq expv phG ddq0 factor i a j b =
+      ⟨(recipDD G (fun _ => 0) none eps born tolSq expv phG ddq0 factor i a j b).re
+          + factor * (qBorn d born i a * qBorn d born j b / dielectricPart d eps),
+       (recipDD G (fun _ => 0) none eps born tolSq expv phG ddq0 factor i a j b).im⟩ := by
+  have hkk : ∀ g a b, kkTensor (G g) (fun _ => 0) (some d) eps tolSq (expv g) a b =
+      kkTensor (G g) (fun _ => 0) none eps tolSq (expv g) a b + if g = g0 then d a * d b / dielectricPart d eps else 0 := by
+    intro g a b
+    have hg0' : normSq (fun i => G g0 i) < tolSq := by simpa using hg0
+    by_cases hg : g = g0
+    · subst hg; simp [kkTensor, hg0']
+    · have hn : ¬ normSq (fun i => G g i) < tolSq := by simpa using hother g hg
+      simp [kkTensor, hn, hg]
+  have hdd : getDD G (fun _ => 0) (some d) eps tolSq expv phG =
+      fun i a j b => ⟨(getDD G (fun _ => 0) none eps tolSq expv phG i a j b).re + d a * d b / dielectricPart d eps,
+                      (getDD G (fun _ => 0) none eps tolSq expv phG i a j b).im⟩ := by
+    funext i a j b
+    simp only [getDD, getDDOf, sumFin_eq, hkk, add_mul, Finset.sum_add_distrib, ite_mul, zero_mul,
+      Finset.sum_ite_eq', Finset.mem_univ, if_true, hph]
+    simp
+  simp only [recipDD, recipDDOf]
+  rw [hdd]
+  simp only [multiplyBorns_add_real, rank_one_born]
+  split <;> (congr 1; ring)
+
+/-- (6) **commensurate points of the first zone** (`gl_commensurate_partial`): the short-range
+force constants are the inverse transform of `D(q) − dd(q)/sqrt(mm')` at the commensurate points
+(`make_Gonze_nac_dataset`); adding the same `dd(q)` back (same `G` list, same `Λ`, same
+representative of q) returns `D(q)` exactly.  Hypotheses: the subtracted family is Hermitian and
+has the time-reversal structure (C06 `roundtrip_dm`).  For representatives of q outside the first
+zone `dd` differs by the truncation of the reciprocal sum — not covered (oracle only). -/
+theorem gl_commensurate_partial {N : Nat} (L : Lat np ns N) (hwf : L.wf = true) (hN : 0 < N) (Z : Zeta K L.Nd)
+    (ψ : Fin N → Fin np → Fin np → Cx K) (hψ : ∀ q j i, (ψ q j i).conj * ψ q j i = 1)
+    (hψn : ∀ q q' j i, P3.Dvd L.Nd ((L.kq q).add (L.kq q')) → ψ q' j i = (ψ q j i).conj)
+    (mult : Fin ns → Fin np → Nat) (hm : ∀ k i, 0 < mult k i)
+    (ms : Fin np → Fin np → K) (hms : ∀ i j, ms i j ≠ 0) (D dd : Fin N → DM np K)
+    (hH : ∀ q, IsHermitian (fun i a j b => (⟨(D q i a j b).re - (dd q i a j b).re / ms i j,
+                                              (D q i a j b).im - (dd q i a j b).im / ms i j⟩ : Cx K)))
+    (hTR : ∀ q q', P3.Dvd L.Nd ((L.kq q).add (L.kq q')) → ∀ i a j b,
+      (⟨(D q' i a j b).re - (dd q' i a j b).re / ms i j, (D q' i a j b).im - (dd q' i a j b).im / ms i j⟩ : Cx K)
+        = (⟨(D q i a j b).re - (dd q i a j b).re / ms i j, (D q i a j b).im - (dd q i a j b).im / ms i j⟩ : Cx K).conj)
+    (q' : Fin N) :
+    addDD (dynmat (cT L)
+        (dynmatToFc L.s2pp (fun q i a j b => ⟨(D q i a j b).re - (dd q i a j b).re / ms i j,
+                                              (D q i a j b).im - (dd q i a j b).im / ms i j⟩) ms (phI L Z ψ mult))
+        ms (phF L Z ψ mult q')) (dd q') ms = D q' := by
+  unfold dynmat
+  rw [roundtrip_dm_raw (L.wf_sound hwf) hN Z ψ hψ hψn mult hm ms hms _ hTR q', hermitize_of_hermitian _ (hH q')]
+  funext i a j b
+  ext <;> simp [addDD]
+
+/-! ## symmetrisation of Born charges and dielectric tensor -/
+
+def one3 : T3 K := fun a b => if a = b then 1 else 0
+
+theorem groupWf_sound {n ng : Nat} {r : Fin ng → C06.Mat3} {perm : Fin ng → Fin n → Fin n}
+    {mul : Fin ng → Fin ng → Fin ng} (h : groupWf r perm mul = true) :
+    0 < ng ∧ (∀ h g i, perm (mul h g) i = perm g (perm h i)) ∧ (∀ h, Function.Injective (mul h)) := by
+  simp only [groupWf, Bool.and_eq_true, List.all_eq_true, List.mem_finRange, forall_const, decide_eq_true_eq,
+    beq_iff_eq, Bool.or_eq_true, bne_iff_ne, ne_eq] at h
+  obtain ⟨⟨⟨h1, h2⟩, h3⟩, _⟩ := h
+  refine ⟨h1, fun h g i => (h2 h g).2 i, ?_⟩
+  intro h g g' e
+  rcases h3 h g g' with h' | h'
+  · exact absurd e h'
+  · exact h'
+
+/-- (7) **group average + sum rule is a projection** (`symmetrize_borns_and_epsilon` on the Born
+charges): for operations whose tables pass `groupWf` and whose Cartesian rotations are a
+representation (`R(hg) = R(h)R(g)`, `R R⁻¹ = 1`, checked numerically per case). -/
+theorem born_symmetrize_projection {n ng : Nat} (r : Fin ng → C06.Mat3) (perm : Fin ng → Fin n → Fin n)
+    (mul : Fin ng → Fin ng → Fin ng) (hwf : groupWf r perm mul = true) (hn : 0 < n)
+    (R Rinv : Fin ng → T3 K) (hR : ∀ h g, R (mul h g) = matMul3 (R h) (R g))
+    (hinv : ∀ g, matMul3 (R g) (Rinv g) = one3 ∧ matMul3 (Rinv g) (R g) = one3) (Z : Fin n → T3 K) :
+    symBorns R Rinv perm (symBorns R Rinv perm Z) = symBorns R Rinv perm Z := by
+  obtain ⟨hng, hperm, hinj⟩ := groupWf_sound hwf
+  have hone : (Matrix.of (one3 : T3 K) : M3 K) = 1 := by
+    ext a b; simp [one3, Matrix.one_apply]
+  have G : GroupRep (fun g => (Matrix.of (R g) : M3 K)) (fun g => Matrix.of (Rinv g)) perm mul := by
+    refine ⟨?_, ?_, hperm, hinj⟩
+    · intro h g; simp only [hR, matMul3_eq]
+    · intro g
+      constructor
+      · rw [← matMul3_eq, (hinv g).1, hone]
+      · rw [← matMul3_eq, (hinv g).2, hone]
+  have key : ∀ Z : Fin n → T3 K, (fun i => (Matrix.of (symBorns R Rinv perm Z i) : M3 K)) =
+      fun i => avgM (fun g => (Matrix.of (R g) : M3 K)) (fun g => Matrix.of (Rinv g)) perm (fun i => Matrix.of (Z i)) i
+        - ((n : K)⁻¹) • ∑ j, avgM (fun g => (Matrix.of (R g) : M3 K)) (fun g => Matrix.of (Rinv g)) perm (fun i => Matrix.of (Z i)) j := by
+    intro Z
+    unfold symBorns
+    rw [sumRule_eq]
+    have := avgBorns_eq R Rinv perm Z
+    funext i
+    rw [congrFun this i]
+    congr 2
+    apply Finset.sum_congr rfl
+    intro j _
+    exact congrFun this j
+  have h2 := key (symBorns R Rinv perm Z)
+  have h1 := key Z
+  have e : (fun i => (Matrix.of (symBorns R Rinv perm Z i) : M3 K)) = fun i => (Matrix.of (symBorns R Rinv perm Z i) : M3 K) := rfl
+  have hid := G.sym_idem hng hn (fun i => (Matrix.of (Z i) : M3 K))
+  simp only at hid
+  rw [← h1] at hid
+  rw [hid] at h2
+  funext i
+  have := congrFun h2 i
+  exact Matrix.of.injective this
+
+/-- the dielectric tensor: the plain group average is a projection. -/
+theorem epsilon_symmetrize_projection {ng : Nat} (r : Fin ng → C06.Mat3) (perm : Fin ng → Fin 1 → Fin 1)
+    (mul : Fin ng → Fin ng → Fin ng) (hwf : groupWf r perm mul = true)
+    (R Rinv : Fin ng → T3 K) (hR : ∀ h g, R (mul h g) = matMul3 (R h) (R g))
+    (hinv : ∀ g, matMul3 (R g) (Rinv g) = one3 ∧ matMul3 (Rinv g) (R g) = one3) (E : T3 K) :
+    symTensor R Rinv (symTensor R Rinv E) = symTensor R Rinv E := by
+  obtain ⟨hng, hperm, hinj⟩ := groupWf_sound hwf
+  have hone : (Matrix.of (one3 : T3 K) : M3 K) = 1 := by
+    ext a b; simp [one3, Matrix.one_apply]
+  have hp : ∀ g i, perm g i = i := fun g i => Subsingleton.elim _ _
+  have G : GroupRep (fun g => (Matrix.of (R g) : M3 K)) (fun g => Matrix.of (Rinv g)) perm mul := by
+    refine ⟨?_, ?_, hperm, hinj⟩
+    · intro h g; simp only [hR, matMul3_eq]
+    · intro g
+      constructor
+      · rw [← matMul3_eq, (hinv g).1, hone]
+      · rw [← matMul3_eq, (hinv g).2, hone]
+  have key : ∀ E : T3 K, (Matrix.of (symTensor R Rinv E) : M3 K) =
+      avgM (fun g => (Matrix.of (R g) : M3 K)) (fun g => Matrix.of (Rinv g)) perm (fun _ => Matrix.of E) 0 := by
+    intro E
+    ext a b
+    simp only [symTensor, avgM, sumFin_eq, Matrix.of_apply, Matrix.smul_apply, Matrix.sum_apply, smul_eq_mul,
+      ← similarity_eq]
+    rw [div_eq_inv_mul]
+  apply Matrix.of.injective
+  rw [key (symTensor R Rinv E)]
+  have h1 := key E
+  have hc : (fun (_ : Fin 1) => (Matrix.of (symTensor R Rinv E) : M3 K)) =
+      avgM (fun g => (Matrix.of (R g) : M3 K)) (fun g => Matrix.of (Rinv g)) perm (fun _ => Matrix.of E) := by
+    funext i
+    rw [h1]; congr 1; exact Subsingleton.elim _ _
+  rw [hc, G.avg_idem hng, ← h1]
+
+/-! ## the driver's staged evaluators compute exactly the model -/
+
+attribute [local instance] cxZero
+
+theorem glDynmatF_spec {nG : Nat} (T : FTables np ns nr) (fcSR : Fin nr → Fin ns → Fin 3 → Fin 3 → K)
+    (ms : Fin np → Fin np → K) (ph : Phases np ns K) (G : Fin nG → V3 K) (qc : V3 K) (dir : Option (V3 K))
+    (eps : T3 K) (born : Fin np → T3 K) (tolSq : K) (expv : Fin nG → K) (phG : Fin nG → Fin np → Fin np → Cx K)
+    (ddq0 : Fin np → Fin 3 → Fin 3 → Cx K) (factor : K) :
+    thaw4 (glDynmatF T fcSR ms ph G qc dir eps born tolSq expv phG ddq0 factor) =
+      glDynmat T fcSR ms ph G qc dir eps born tolSq expv phG ddq0 factor := by
+  simp only [glDynmatF, recipDDF, thaw4_freeze4, glDynmat, recipDD, getDD, dynmat]
+
+theorem ddQ0F_spec {nG : Nat} (G : Fin nG → V3 K) (eps : T3 K) (born : Fin np → T3 K) (tolSq : K)
+    (expv : Fin nG → K) (phG : Fin nG → Fin np → Fin np → Cx K) (i : Fin np) (a b : Fin 3) :
+    thaw4 (d := 1) (ddQ0F G eps born tolSq expv phG) i a b 0 = ddQ0 G eps born tolSq expv phG i a b := by
+  simp only [ddQ0F, thaw4_freeze4, ddQ0, getDD]
+
+/-! ## non-vacuity -/
+
+/-- the point group `{1, −1}` acting on one atom: a table set passing the certificate -/
+example : groupWf (n := 1) (ng := 2)
+    (fun g => if g = 0 then ((1, 0, 0), (0, 1, 0), (0, 0, 1)) else ((-1, 0, 0), (0, -1, 0), (0, 0, -1)))
+    (fun _ i => i) (fun h g => h + g) = true := by decide
+
+/-- hypotheses of `wang_gamma_limit` are satisfiable: one atom, one cell, unit phase -/
+example : (∀ j : Fin 1, (Finset.univ.filter fun k : Fin 1 => (fun _ => 0 : Fin 1 → Nat) k = ((fun _ => 0 : Fin 1 → Fin 1) j).1).card = 1 / 1) := by
+  decide
+
 end PhononModel.C08
-#print axioms PhononModel.C08.placeholder
+
+#print axioms PhononModel.C08.zero_born_noop
+#print axioms PhononModel.C08.zero_born_noop_gl
+#print axioms PhononModel.C08.wang_direction_scale_invariant
+#print axioms PhononModel.C08.wang_gamma_limit
+#print axioms PhononModel.C08.wang_commensurate_noop
+#print axioms PhononModel.C08.gl_gamma_limit
+#print axioms PhononModel.C08.gl_commensurate_partial
+#print axioms PhononModel.C08.born_symmetrize_projection
+#print axioms PhononModel.C08.epsilon_symmetrize_projection
+#print axioms PhononModel.C08.glDynmatF_spec
+#print axioms PhononModel.C08.ddQ0F_spec
